@@ -148,7 +148,7 @@ class LatexEncodingMiddleware(_PyStringTransformerMiddleware):
         try:
             return self._encoder.unicode_to_latex(python_string), ""
         except Exception as e:
-            return python_string, str(e)
+            return python_string, str(e) or repr(e)
 
 
 class LatexDecodingMiddleware(_PyStringTransformerMiddleware):
@@ -215,4 +215,4 @@ class LatexDecodingMiddleware(_PyStringTransformerMiddleware):
         try:
             return self._decoder.latex_to_text(python_string), ""
         except Exception as e:
-            return python_string, str(e)
+            return python_string, str(e) or repr(e)
